@@ -42,6 +42,17 @@ def configs(tier, seed, salt):
         cfgs.append({"dw": 8, "aw": 6, "align": 0, "ov": None, "regs": [[8 * k, "rw", None, None], [8, "r", None, None]]})
     for nregs in (5, 6, 7, 9, 11, 13, 14, 17):
         cfgs.append({"dw": 8, "aw": 6, "align": 0, "ov": None, "regs": [[8 if i % 3 else 12, "rw" if i % 2 else "r", None, None] for i in range(nregs)]})
+    # registers at HIGH addresses (beyond 0x100, 0x400, 0x1000): address constants wider than a byte, Python ints outside the
+    # small-int cache, long shadow-balancing recursions
+    cfgs.append({"dw": 8, "aw": 10, "align": 0, "ov": None, "regs": [[8, "rw", 0, None], [16, "rw", 0xff, None], [16, "rw", 0x101, None],
+                                                                   [24, "rw", 0x200, None], [8, "r", 0x2ff, None], [16, "rw", 0x3fe, None]]})
+    cfgs.append({"dw": 8, "aw": 13, "align": 0, "ov": None, "regs": [[16, "rw", 0x100, None], [8, "w", 0x1000, None], [24, "rw", 0x1001, None],
+                                                                   [8, "r", 0x1fff, None]]})
+    cfgs.append({"dw": 16, "aw": 11, "align": 1, "ov": 1, "regs": [[16, "rw", 0x1fe, None], [32, "rw", 0x200, None], [48, "r", 0x7fc, None]]})
+    # padded register sizes that are NOT a power of two (5, 6, 9..11 words with alignment 1 / 2): a data word of one register
+    # shares its shadow chunk with the alignment padding of the next one (the layouts csr.EventMonitor produces for 33+ events)
+    for words, al in [(5, 1), (6, 1), (9, 1), (9, 2), (10, 2), (11, 1)]:
+        cfgs.append({"dw": 8, "aw": 6, "align": al, "ov": None, "regs": [[8 * words, "rw", None, None], [8 * words, "rw", None, None]]})
     for c in list(cfgs):
         for ov in (None, 0, 1, 2):
             if c["regs"] and ov != c["ov"] and rng.random() < (0.5 if tier == "quick" else 1.0):
